@@ -27,18 +27,21 @@ Reject(c) == PrintT(<<"REJECT", Ev.tid, c, l>>)
 PrefixRel(a, b) == IsPrefix(a, b) \/ IsPrefix(b, a)
 Longer(a, b) == IF Len(a) >= Len(b) THEN a ELSE b
 
-(* checks shared by create and divide; ns, es, nw, k are the MODEL's (successor) state *)
+(* checks shared by create and divide; ns, es, nw, k are the MODEL's (successor) state.
+   Only what the statement of C18 speaks about is a verdict: the node set, repetition, permanent indices and
+   levels, projection, negation closure, half selection.  The edge set and "new nodes are midpoints of the
+   previous edges" are the MECHANISM (a correct refactoring may add the extra edges at another moment); they
+   are evaluated by EdgesAgree below and reported by the driver as an advisory, not as a violation. *)
+EdgesAgree(ev, es) == EdgeSet(ev) = es
 StateClause(ev, ns, es, nw, k, oldOrder, oldLevels) ==
   IF ev.err # "" THEN "exception:" \o ev.err
   ELSE IF Len(ev.nodes) # Cardinality(SeqSet(ev.nodes)) THEN "a node appears twice"
   ELSE IF SeqSet(ev.nodes) # ns THEN "node set is not the model's lattice"
   ELSE IF Len(ev.nodes) # NodeCount(Kind, k) THEN "node count"
   ELSE IF \E i \in 1 .. Len(oldOrder) : ev.nodes[i] # Mul(2, oldOrder[i]) THEN "index of an old node changed"
-  ELSE IF \E i \in (Len(oldOrder) + 1) .. Len(ev.nodes) : ev.nodes[i] \notin nw THEN "new node is not a midpoint"
   ELSE IF SubSeq(ev.levels, 1, Len(oldLevels)) # oldLevels THEN "level of an old node changed"
   ELSE IF \E i \in (Len(oldLevels) + 1) .. Len(ev.levels) : ev.levels[i] # k THEN "level of a new node"
   ELSE IF ev.ci # [i \in 1 .. Len(ev.nodes) |-> i - 1] THEN "permanent indices are not 0..n-1"
-  ELSE IF EdgeSet(ev) # es THEN "edge set differs from the model"
   ELSE IF ev.projres > 1000 THEN "projection is not the node scaled to unit length"
   ELSE IF ~ev.negclosed THEN "projections not closed under negation"
   ELSE IF Kind = "cube4D" /\ ev.half # SelectSeq([i \in 1 .. Len(ev.nodes) |-> i - 1], LAMBDA i : Canonical(ev.nodes[i + 1]))
@@ -58,6 +61,7 @@ TraceDivide ==
           /\ Ev.ev = "divide"
           /\ Divide                                  \* the model's action
           /\ LET c == StateClause(Ev, nodes', edges', newest', lvl', order, levels) IN IF c = "ok" THEN TRUE ELSE Reject(c)
+          /\ IF Ev.err = "" /\ ~EdgesAgree(Ev, edges') THEN PrintT(<<"ADVISORY", Ev.tid, "edge set differs from the model", l>>) ELSE TRUE
           /\ order' = Ev.nodes /\ levels' = Ev.levels
           /\ UNCHANGED <<seenRaw, seenProj>>
 
